@@ -385,6 +385,7 @@ func (in *Interp) resetPath(prefix []dec) {
 	in.pureTabs = map[string][]*Term{}
 	in.pureTabsAgg = map[string]*Agg{}
 	in.crcTop = false
+	in.pools = map[lockKey][]Value{}
 	in.ts.noGauss = false
 	in.solver.SoftMs = 0
 	in.crcTerms = map[*Term]bool{}
